@@ -918,6 +918,7 @@ static void dump_chrome_task_rstack(struct uftrace_dump_ops *ops, struct uftrace
 			rec_type = UFTRACE_EXIT;
 			break;
 		case EVENT_ID_PERF_SCHED_OUT:
+		case EVENT_ID_PERF_SCHED_OUT_PREEMPT:
 			rec_type = UFTRACE_ENTRY;
 			break;
 		default:
@@ -1634,8 +1635,12 @@ static void dump_replay_event(struct uftrace_dump_ops *ops, struct uftrace_task_
 {
 	struct uftrace_record *rec = task->rstack;
 
-	/* handle schedule events as if functions */
-	if (rec->addr == EVENT_ID_PERF_SCHED_IN || rec->addr == EVENT_ID_PERF_SCHED_OUT) {
+	/*
+	 * handle schedule events as if functions: a pre-empted task is switched
+	 * out as well and the sched-in event that follows closes both kinds
+	 */
+	if (rec->addr == EVENT_ID_PERF_SCHED_IN || rec->addr == EVENT_ID_PERF_SCHED_OUT ||
+	    rec->addr == EVENT_ID_PERF_SCHED_OUT_PREEMPT) {
 		call_if_nonull(ops->task_rstack, ops, task, "linux:schedule");
 		return;
 	}
